@@ -818,6 +818,9 @@ class Ranges:
                     return True
             if k[0] >= 0 and x[0] >= k[1] and self.prove_le(ca[2], cb, bb, strict, depth + 1):
                 return True
+            # ... the same with "no underflow" known relationally (k <= x: a suffix's length taken off its parent's)
+            if k[0] >= 0 and not strict and self.prove_le(ca[2], cb, bb, False, depth + 1) and self.prove_le(ca[3], ca[2], bb, False, depth + 1):
+                return True
         # x / k <= x <= b
         if ca[0] == 'bin' and ca[1] == 'Div':
             k = self._range_canon(ca[3], bb, None, True, 0)
